@@ -26,7 +26,7 @@ WRITES = ["assign", "typed", "+=", "-=", "*=", "/=", "%=", "?=stmt", "?=if", "?=
           "index", "index+=", "loopcounter", "unpack",
           # assignment THROUGH the name: field and nested paths, with and without a parenthesised inner step
           "field", "field+=", "field-list", "(field)[i]", "(field)[i]+=", "field.m()[i]+=", "index2", "index2+=", "(index)[i]", "(index)[i]+=", "elem"]
-CONTEXTS = ["same", "block", "block2", "while", "from", "fn", "fn-in-fn", "method", "else"]
+CONTEXTS = ["same", "block", "block2", "while", "from", "fn", "fn-in-fn", "method", "else", "method-sibling-param", "method-ctor-param", "method-later-sibling-param"]
 DECLS = ["module", "function", "block"]
 
 
@@ -87,8 +87,20 @@ def give_fn(ty):
     return f"give = fn() -> {base}? {{\n return {other}\n}}"
 
 
-def wrap(ctx, stmt):
+def wrap(ctx, stmt, tt="int"):
     ind = "\n".join(" " + l for l in stmt.split("\n"))
+    if ctx.startswith("method-") and ctx.endswith("-param"):
+        # the write sits in a method of a class one of whose OTHER members has a parameter with the name of the constant
+        body = "\n".join("  " + l for l in stmt.split("\n"))
+        other = f" fn other(self, cst: {tt}) {{\n }}\n"
+        ctor = f" constructor(self, cst: {tt}) {{}}\n" if ctx == "method-ctor-param" else " constructor(self) {}\n"
+        m = " fn m(self) {\n" + body + "\n }\n"
+        mk = "kk = K(cst)" if ctx == "method-ctor-param" else "kk = K()"
+        if ctx == "method-sibling-param":
+            return "class K {\n" + ctor + other + m + "}\n" + mk + "\nkk.m()"
+        if ctx == "method-later-sibling-param":
+            return "class K {\n" + ctor + m + other + "}\n" + mk + "\nkk.m()"
+        return "class K {\n" + ctor + m + "}\n" + mk + "\nkk.m()"
     if ctx == "same":
         return stmt
     if ctx == "block":
@@ -121,7 +133,7 @@ def program(decl, w, ctx, ty, const, pre="none"):
     stmt = write_stmt(w, "cst", ty)
     if stmt is None:
         return None
-    if w.startswith("modify") and ctx not in ("fn", "fn-in-fn", "method"):
+    if w.startswith("modify") and ctx not in ("fn", "fn-in-fn", "method") and not ctx.startswith("method-"):
         return None   # `modify` outside a function is a different (always rejected) misuse
     kw = "const " if const else ""
     declline = f"{kw}cst: {tt} = {init}"
@@ -143,7 +155,7 @@ def program(decl, w, ctx, ty, const, pre="none"):
         before = [f"if true {{\n cst: {tt} = {other}\n}}"]
     elif pre == "const-before-in-sibling-block":
         before = [f"if true {{\n const cst: {tt} = {other}\n}}"]
-    body = [give_fn(ty)] + before + [declline, wrap(ctx, stmt), "print " + OBSERVE.get(ty, "cst")]
+    body = [give_fn(ty)] + before + [declline, wrap(ctx, stmt, tt), "print " + OBSERVE.get(ty, "cst")]
     text = "\n".join(body)
     pre_ = PRELUDE[ty] + "\n" if ty in PRELUDE else ""
     if decl == "module":
@@ -235,7 +247,7 @@ class C10(Check):
     level = "fault_enumeration"
     rule = ("all expressible (declaration context in {module, function, block, class name, imported module, exported member}, "
             "write form in 16 assignment forms, write context in {same scope, block, nested block, else, while, from, nested function, "
-            "function in function, method; for class names also the class's own constructor / method / a closure in its method, and `modify` with a value of the "
+            "function in function, method, a method whose sibling method / constructor has a parameter with the constant's name; for class names also the class's own constructor / method / a closure in its method, and `modify` with a value of the "
             "same type}, constant type) triples; the same with the const declared OVER AN EARLIER BINDING of the name in the same scope (ordinary variable, typed variable, parameter, loop counter, a variable / const of an earlier sibling block); each const case is paired with a positive control (same write on a "
             "non-const name must compile and run).  Non-trivial = the triple is syntactically expressible and its control is accepted.")
     assumptions = ["a plain (non-`modify`) assignment inside a nested function declares a local by the language's rules: there the "
@@ -315,7 +327,7 @@ class C10(Check):
         detail = {"files": {"x.ms": src, "control.ms": ctl}, "res": res.brief(), "control": rc.brief()}
         rejected = driver.compile_rejected(res)
         init_print = INIT_PRINT[ty]
-        in_fn = ctx in ("fn", "fn-in-fn", "method")
+        in_fn = ctx in ("fn", "fn-in-fn", "method") or ctx.startswith("method-")
         tags = [f"w-{w}", f"c-{ctx}", "control-ok" if control_ok else "control-rejected"]
         if res.cls in ("panic", "abort", "timeout"):
             if "compiler/src" in res.err:
